@@ -25,7 +25,8 @@ Inductive SInv (cs : list byte) (d : dec) : Prop :=
     fed d (body ++ repeat 27 4) -> raw d = 8 + lenN body + 4 + k -> zc d <= 4 ->
     Forall (fun b => b < 256) (firstn (N.to_nat k) pl) -> SInv cs d
 | SI_done pre :
-    st d = Done -> cs = pre ++ frame_enc (rev (rbuf d)) -> SInv cs d.
+    st d = Done -> cs = pre ++ frame_enc (rev (rbuf d)) ->
+    raw d = lenN (frame_enc (rev (rbuf d))) -> SInv cs d.
 
 Lemma SInv_init : SInv [] init.
 Proof. eapply SI_look with (pre := []); simpl; eauto; lia. Qed.
@@ -252,8 +253,10 @@ Proof.
     destruct (flush cap _) as [d'|] eqn:E; cbn [fst oom]; [|apply reset_inv].
     apply flush_spec in E. destruct E as (Fb & Fz & Fr & Fc & Fs).
     unfold data in Fb. cbn [rbuf zc] in Fb.
-    eapply SI_done with (pre := pre); [reflexivity|].
-    cbn [rbuf set_st]. rewrite Fb.
+    assert (Hdone : pre ++ start_seq ++ body ++ repeat 27 4 ++ [26; p1; p2; b] =
+                    pre ++ frame_enc (rev (rbuf d')) /\ raw d' = lenN (frame_enc (rev (rbuf d')))).
+    2:{ destruct Hdone as [Hd1 Hd2]. eapply SI_done with (pre := pre); [reflexivity|exact Hd1|exact Hd2]. }
+    rewrite Fb.
     set (m := rev (rbuf d) ++ repeat 0 (N.to_nat (zc d - p1))).
     assert (Hdata : data d = m ++ repeat 0 (N.to_nat p1)).
     { unfold data, m. rewrite <- app_assoc, <- repeat_app. do 2 f_equal. lia. }
@@ -271,7 +274,10 @@ Proof.
       f_equal. rewrite Henc, <- !app_assoc. reflexivity. }
     rewrite Hcalc in C1.
     destruct (crc_bytes (crc16 pref) p2 b Hp2 Hb C1) as [<- <-].
-    unfold pref. rewrite Henc, <- !app_assoc. reflexivity. }
+    split.
+    - unfold pref. rewrite Henc, <- !app_assoc. reflexivity.
+    - rewrite Fr. cbn [raw]. rewrite Hraw, Henc. unfold pref.
+      rewrite !lenN_app, lenN_repeat. unfold lenN. cbn [length start_seq]. lia. }
   (* re-alignment or invalid *)
   match goal with |- context [if ?c then _ else _] => destruct c eqn:Chk end;
     [|cbn [fst]; apply reset_inv].
